@@ -4,6 +4,7 @@
 #   run.sh check <ID> [quick|thorough]
 #   run.sh all [quick|thorough]      every claimed property
 #   run.sh dump <func>...            debugging: SSA of a garble function
+#   run.sh selftest [regex]          mutant battery (checker regression test)
 set -u
 VERIF="$(cd "$(dirname "${BASH_SOURCE[0]}")" && pwd)"
 export GOPROXY=off GOSUMDB=off GOTOOLCHAIN=local GOWORK=off
@@ -43,6 +44,17 @@ all)
 dump)
 	needbuild && build
 	exec "$BIN" dump "$@"
+	;;
+selftest)
+	# mutant battery: single-edit variants of /repo (through an overlay, nothing is
+	# written to /repo), one process each; asserts that each is detected.
+	needbuild && build
+	pat="${1:-}"
+	out=$("$BIN" mutant -repo "${VERIF_REPO:-/repo}" -verif "$VERIF" -list | grep -E "${pat:-.}" | xargs -P 6 -I{} "$BIN" mutant -repo "${VERIF_REPO:-/repo}" -verif "$VERIF" {} 2>&1 | sort)
+	echo "$out"
+	echo "$out" | awk '{c[$1]++} END {for (k in c) printf "%s=%d ", k, c[k]; print ""}'
+	echo "$out" | grep -qE '^(MISSED|BROKEN|ERROR)' && exit 1
+	exit 0
 	;;
 *)
 	echo "usage: run.sh setup | check <ID> [quick|thorough] | all [tier] | dump <func>..." >&2
